@@ -63,13 +63,14 @@ def run_child(cwd: str, argv: List[str], targets: List[str], hashseed: int = 0, 
               clock: Optional[float] = None, env: Optional[Dict[str, str]] = None, env_unset: Optional[List[str]] = None,
               fault: Optional[dict] = None, http: Optional[dict] = None, timeout: int = 90,
               pre_runs: Optional[List[dict]] = None, proc_env: Optional[Dict[str, str]] = None,
-              reuse_config_object: bool = False, import_cwd: Optional[str] = None) -> Dict[str, Any]:
+              reuse_config_object: bool = False, import_cwd: Optional[str] = None,
+              cwd_on_sys_path: bool = False) -> Dict[str, Any]:
     fd, job_path = tempfile.mkstemp(prefix="job-", suffix=".json", dir=cwd)
     os.close(fd)
     out_path = job_path + ".out"
     job = {"cwd": cwd, "argv": argv, "targets": targets, "enum_seed": enum_seed, "clock": clock, "env": env or {},
            "env_unset": env_unset or [], "fault": fault, "http": http, "out": out_path, "pre_runs": pre_runs or [],
-           "reuse_config_object": reuse_config_object, "import_cwd": import_cwd}
+           "reuse_config_object": reuse_config_object, "import_cwd": import_cwd, "cwd_on_sys_path": cwd_on_sys_path}
     with open(job_path, "w") as f:
         json.dump(job, f)
     penv = dict(os.environ, PYTHONHASHSEED=str(hashseed), PYTHONDONTWRITEBYTECODE="1")
